@@ -41,7 +41,7 @@ inductive Emit (β : Type) where
   | finished
 deriving Repr, DecidableEq
 
-/-- `DecodeResult::Finished`? -/
+/-- is this `DecodeResult::Finished` -/
 def Emit.isFinished {β} : Emit β → Bool
   | .finished => true
   | _ => false
